@@ -49,6 +49,9 @@ SPECIAL = [
 ]
 
 
+HOT_Z = [1, 6, 8, 11, 14, 17, 26, 27, 28, 64, 79]
+
+
 def run_seed(master, prop, tier, i):
     h = hashlib.sha256(("%d/%s/%s/%d" % (master, prop, tier, i)).encode()).digest()
     return int.from_bytes(h[:8], "big")
@@ -100,8 +103,14 @@ class Vocab(object):
         """A seeded formula string using isotopes and ions."""
         n = rng.choice([1, 1, 2, 2, 3])
         parts = []
+        # half of the formulas draw from a small pool of "hot" elements so that calculator calls
+        # within one process keep meeting the same atoms with different other arguments (a memo
+        # keyed too coarsely only shows when a key repeats)
+        hot = rng.random() < 0.5
         for _ in range(n):
-            if xray_ok:
+            if hot:
+                Z = rng.choice(HOT_Z)
+            elif xray_ok:
                 Z = rng.randint(1, 92)
             else:
                 Z = rng.choice([z for z in self.Z if z > 0])
@@ -139,7 +148,8 @@ def gen_calc(rng, V, tbl="public", which=None):
         return ["calc", tbl, which, V.formula(rng)]
     if which == "activation":
         return ["calc", tbl, which, V.formula(rng), rng.choice([1.0, 10.0]),
-                rng.choice([1e5, 1e8]), rng.choice([1.0, 10.0]), rng.choice([[0, 1, 24, 360], [0], [2, 0.5]])]
+                rng.choice([1e5, 1e8]), rng.choice([1.0, 10.0]), rng.choice([[0, 1, 24, 360], [0], [2, 0.5]]),
+                rng.choice(["nist", "iaea"])]
     if which == "d2o_match":
         return ["calc", tbl, which, rng.choice(["C3H4H[1]NO@1.29n", "C6H10O5@1.5n", "C2H5OH[1]@0.789n"])]
     if which == "nsf_tables":
@@ -157,7 +167,8 @@ def gen_calc(rng, V, tbl="public", which=None):
     if which == "formula_methods":
         return ["calc", tbl, which, V.formula(rng, xray_ok=True), rng.choice([1.0, 3.7])]
     if which == "show_table":
-        return ["calc", tbl, which, V.formula(rng, natural_only=True), rng.choice([1.0, 2.0])]
+        return ["calc", tbl, which, V.formula(rng, natural_only=True), rng.choice([1.0, 2.0]),
+                rng.choice(["nist", "iaea"])]
     if which == "list":
         props = rng.choice([["symbol", "K_alpha"], ["symbol", "covalent_radius"], ["symbol", "mass"],
                             ["symbol", "K_beta1", "covalent_radius_uncertainty"],
